@@ -1,5 +1,6 @@
 From Coq Require Import ExtrOcamlBasic.
-From MV Require Import Gen.Consts Crypto.CryptoPrims Crypto.CryptoSpec Crypto.CryptoModel Crypto.CryptoSym Crypto.CryptoSymModel.
+From MV Require Import Gen.Consts Crypto.CryptoPrims Crypto.CryptoSpec Crypto.CryptoModel Crypto.CryptoSym Crypto.CryptoSymModel
+                       Crypto.CryptoDes Crypto.CryptoDesModel Crypto.CryptoLegacy.
 Extraction Language OCaml.
 Cd "../ocaml/gen".
 Extraction "m_c12.ml"
@@ -18,5 +19,7 @@ Extraction "m_c12.ml"
   aes_cbc_encrypt_spec aes_cbc_decrypt_spec aes_cbc_encrypt_calls aes_cbc_decrypt_calls
   aes_gcm_encrypt_spec aes_gcm_decrypt_spec aes_gcm_encrypt aes_gcm_decrypt aes_gcm_decrypt2 aes_gcm_reuse
   chachapoly_seal_spec chachapoly_open_spec
-  c_PS_ARG_FAIL c_PS_LIMIT_FAIL c_PS_AUTH_FAIL.
+  des_block des3_cbc_encrypt_spec des3_cbc_decrypt_spec ps_des3_encrypt_calls ps_des3_decrypt_calls
+  md5sha1_spec md5sha1_init md5sha1_update md5sha1_final pbkdf1_md5 pbkdf1_md5_spec aes_encrypt_block aes_decrypt_block
+  c_PS_ARG_FAIL c_PS_LIMIT_FAIL c_PS_AUTH_FAIL c_PS_UNSUPPORTED_FAIL.
 Cd "../../coq".
